@@ -11,7 +11,7 @@ from values import *
 
 def run(ctx):
     prog, info = mb.load()
-    for fn in (mb.SEND, 'ActorProperties::send_message::<TMessage>', 'ActorProperties::try_admit_message', '<MessageAdmission as Drop>::drop',
+    for fn in (mb.SEND, mb.SEND_SERIALIZED, 'ActorProperties::send_message::<TMessage>', 'ActorProperties::try_admit_message', '<MessageAdmission as Drop>::drop',
                mb.SET_STATUS, mb.PORTS_DROP, 'ActorProperties::get_status'):
         b = prog.find_fn(fn)
         if b is None:
@@ -28,11 +28,11 @@ def run(ctx):
                         'user Message::box_message/from_boxed are opaque wrappers of the same message token']
     # name, senders, msgs, drainers, stoppers, rounds, unroll, spurious
     if quick:
-        insts = [('s2x1_stop_r2', 2, 1, 0, 1, 2, 2, False), ('s1x2_stop_r2', 1, 2, 0, 1, 2, 2, False), ('s2x1_nostop_r2', 2, 1, 0, 0, 2, 2, False), ('s1x1_d1_r2', 1, 1, 1, 0, 2, 2, False), ('s2x1_d1_r2', 2, 1, 1, 0, 2, 2, False)]
+        insts = [('s2x1_stop_r2', 2, 1, 0, 1, 2, 2, False), ('s1x2_stop_r2', 1, 2, 0, 1, 2, 2, False), ('s2x1_nostop_r2', 2, 1, 0, 0, 2, 2, False), ('s1x1_d1_r2', 1, 1, 1, 0, 2, 2, False), ('s2x1_d1_r2', 2, 1, 1, 0, 2, 2, False), ('s2x1_stop_r2_ser', 2, 1, 0, 1, 2, 2, False)]
     else:
         insts = [('s2x1_stop_r2', 2, 1, 0, 1, 2, 2, False), ('s1x2_stop_r2', 1, 2, 0, 1, 2, 2, False), ('s2x1_nostop_r2', 2, 1, 0, 0, 2, 2, False),
                  ('s2x2_nostop_r2', 2, 2, 0, 0, 2, 2, False), ('s2x1_d1_stop_r2', 2, 1, 1, 1, 2, 2, False), ('s3x1_stop_r2', 3, 1, 0, 1, 2, 2, False),
-                 ('s2x1_stop_r3_u3', 2, 1, 0, 1, 3, 3, False), ('s2x1_stop_r2_spurious', 2, 1, 0, 1, 2, 3, True)]
+                 ('s2x1_stop_r3_u3', 2, 1, 0, 1, 3, 3, False), ('s2x1_stop_r2_spurious', 2, 1, 0, 1, 2, 3, True), ('s2x1_stop_r2_ser', 2, 1, 0, 1, 2, 2, False), ('s1x2_stop_r2_ser', 1, 2, 0, 1, 2, 2, False)]
     if os.environ.get('VERIF_C02_INST'):
         a = os.environ['VERIF_C02_INST'].split(',')
         insts = [(os.environ['VERIF_C02_INST'],) + tuple(int(x) for x in a[:6]) + (len(a) > 6 and a[6] == '1',)]
@@ -71,7 +71,7 @@ def run(ctx):
 
 def job(sub, name, ns, nm, nd, nst, R, U, spurious):
     prog, info = mb.load()
-    mb.run_instance(sub, 'C02', prog, name, ns, nm, nd, nst, R, U, spurious=spurious)
+    mb.run_instance(sub, 'C02', prog, name, ns, nm, nd, nst, R, U, spurious=spurious, serialized=(ns - 1,) if name.endswith('_ser') else ())
 
 
 def type_gate(ctx, prog):
